@@ -56,6 +56,64 @@ def chk_parfront(o, out):
                 extra={"partition": [sorted(o.names[x] for x in g) for g in gf]})
 
 
+def sym_parfront(args):
+    """[S over datasets AND schemes]: parfront_partition on a SymDataset"""
+    n, m = args
+    from vf import symds
+    from corankco.partitioning.ordered_partition import OrderedPartition
+    sweep.install()
+    symds.install_kernel_dispatcher()
+    out = []
+    ds = symds.SymDataset(n, m)
+    B, T = fork.scheme_vars()
+    sc = fork.make_scheme(B, T)
+    ws = spec.level_vectors(n)
+    wt = {w: ds.score_term(w, B, T) for w in ws}
+    mn = zmin(list(wt.values()))
+    ex = fork.Explorer(fork.valid_scheme(B, T) + ds.constraints(), max_paths=int(1e5), timeout_ms=120000)
+
+    def pay(mdl, what, cls, groups):
+        lvs = ds.levels_from(mdl)
+        return {"signature": {"site": "parfront_partition(symbolic dataset)", "class": cls}, "what": what, "check": cls, "config": "Copeland", "flag": True,
+                "rankings": shapes.raw_json(lvs, ds.names), "scheme": fork.scheme_values(mdl, B, T), "choices": [],
+                "partition": [sorted(ds.names[x] for x in g) for g in groups]}
+
+    def path(ctx):
+        try:
+            gf = [{e.value - 1 for e in g} for g in OrderedPartition.parfront_partition(ds, sc)]
+            gc = [{e.value - 1 for e in g} for g in OrderedPartition.parcons_partition(ds, sc)]
+        except harness.HarnessError:
+            raise
+        except Exception as e:  # noqa
+            ctx._ensure_model()
+            out.append(pay(ctx.model, f"parfront_partition raised {type(e).__name__}: {e}", "parfront-raises", []))
+            return
+        allx = [x for g in gf for x in g]
+        ok = sorted(allx) == list(range(n)) and all(len(g) > 0 for g in gf)
+        i = 0
+        for g in gf:
+            acc = set()
+            while i < len(gc) and acc != g and gc[i] <= g:
+                acc |= gc[i]
+                i += 1
+            if acc != g:
+                ok = False
+        if not ok or i != len(gc):
+            ctx._ensure_model()
+            out.append(pay(ctx.model, f"ParFront {gf} is not a partition merging consecutive groups of ParCons {gc}", "parfront-merge", gf))
+            return
+        bad = [w for w in ws if not consistent(w, gf)]
+        if not bad:
+            STATS.q["property:trivial"] += 1
+            return
+        mdl = ctx.prove(z3.And(*[wt[w] > mn for w in bad]))
+        if mdl is not None:
+            out.append(pay(mdl, f"an optimal consensus does not respect the ParFront partition {[sorted(g) for g in gf]}", "parfront", gf))
+    ex.explore(path)
+    STATS.sample({"symbolic dataset": f"all datasets with n={n}, m={m}", "scheme": "12 symbolic reals", "paths": STATS.paths})
+    return out
+
+
 def consistency_pairs(n):
     """[P] all (partition over a subset, consensus over a subset) pairs over n elements"""
     from corankco.partitioning.ordered_partition import OrderedPartition
@@ -111,6 +169,9 @@ def run(run):
     items = sweep.make_items(run, ["Copeland"], [chk_parfront], flags=(True,), light=light, heavy=light,
                              strata={"*": ["cycles3", "comp3plus1"]})
     run.pmap("parfront", sweep.run_item, sweep.order_items(items), chunksize=2)
+    symb = [(2, 2), (3, 1), (3, 2), (2, 3)] + ([(3, 3), (4, 1)] if run.thorough else [])
+    run.bounds["parfront on symbolic datasets [S over datasets and schemes] (n, m)"] = symb
+    run.pmap("sym_parfront", sym_parfront, symb)
     run.extra["work_items"] = len(items)
 
 
